@@ -6,12 +6,16 @@ From Verif Require Import C11.Reload C11.ReloadProofs C11.LCheck.
 Lemma o_ok_inv s : Inv s -> o_ok (observe s) = true.
 Proof.
   intros H. unfold o_ok, observe. destruct (dead s) eqn:Hd; [reflexivity|]. cbn [orb].
-  destruct (H Hd) as [He Hn]. rewrite <- He. rewrite Nat.eqb_refl. cbn [andb].
-  destruct (stored s) as [[| |]|]; cbn; try reflexivity. congruence.
+  destruct (H Hd) as [He [Hn [Hr H0]]]. rewrite <- He. rewrite Nat.eqb_refl. cbn [andb].
+  rewrite <- He in Hr, H0.
+  destruct (stored s) as [[| |]|]; cbn; try reflexivity.
+  - congruence.
+  - now rewrite Hr.
+  - now rewrite H0.
 Qed.
 
 Lemma restart_code s : Inv s ->
-  let '(c, _, _) := observe (step cfg_now s LRestart) in (Nat.eqb c 0 || Nat.eqb c 2) = true.
+  let '(c, _, _, _) := observe (step cfg_now s LRestart) in (Nat.eqb c 0 || Nat.eqb c 2) = true.
 Proof. intros _. cbn [step]. destruct (stored s) as [[| |]|]; reflexivity. Qed.
 
 Theorem model_traces_accepted ls : forall s, Inv s ->
@@ -22,12 +26,12 @@ Proof.
   apply andb_true_iff in IH. destruct IH as [I1 I2].
   rewrite (o_ok_inv _ (step_inv s l Hs)), I1. cbn [andb].
   destruct l; cbn [restarts_ok]; try exact I2.
-  assert (H := restart_code s Hs). destruct (observe (step cfg_now s LRestart)) as [[c m] d].
+  assert (H := restart_code s Hs). destruct (observe (step cfg_now s LRestart)) as [[[c m] d] e].
   cbv beta iota in H |- *. now rewrite H, I2.
 Qed.
 
 Corollary agreeing_case_accepted k : lc_obs k = trace cfg_now init (lc_ops k) -> check_C11r k = true.
 Proof.
   intros Heq. unfold check_C11r. rewrite Heq. apply model_traces_accepted.
-  intros _. cbn. split; [reflexivity | discriminate].
+  intros _. cbn. repeat split; auto; discriminate.
 Qed.
